@@ -811,10 +811,10 @@ func (g *Group) Range(f func(c Client) bool) {
 }
 
 func kickall(g *Group, message string) {
-	g.Range(func(c Client) bool {
+	// Kick may call DelClient, which takes the group lock: don't hold it
+	for _, c := range g.GetClients(nil) {
 		c.Kick("", nil, message)
-		return true
-	})
+	}
 }
 
 func Shutdown(message string) {
